@@ -73,7 +73,7 @@ def RECIPES(ctx, D):
     import deepali.losses.functional as L
     from deepali.core.grid import Grid
 
-    shape = (4, 3) if D == 2 else (3, 3, 2)
+    shape = (4, 3) if D == 2 else (4, 4, 4)  # every axis long enough for the fixed kernels (pooling 3, cubic B-spline 4) and for one downsampling level
     sizes = tuple(reversed(shape))
     img = lambda nm="x", c=2, off=0: _t(ctx, nm, (1, c) + shape, off=off)
     flow = lambda nm="u", off=0: _t(ctx, nm, (1, D) + shape, 1 / 16, off)
